@@ -169,6 +169,7 @@ PROPS = {
         "units": [
             R("h23", "c16", "TestC16_Histories", (3000, 8, 1500), (1000000, 16, 10000)),
             R("h23", "c16", "TestC16_Topic", (60, 4, 900), (6000, 8, 10000)),
+            R("h23", "c16", "TestC16_CloseRace", (80, 4, 900), (8000, 8, 10000)),
         ],
     },
     "C08": {
